@@ -63,7 +63,8 @@ def corpus_scenario(seed, index, tier):
         fam = c15.ScratchFamily("C15", "x", 0, 0)
         return "c15", fam.generate(seed, index // 11, tier)
     # single-caller I/O-fault runs on the C05 bases (company "alone")
-    b = c05.base_scenario(seed, (index // 11) % len(c05.CTYPES), "asyncio")
+    b = c05.base_scenario(seed, c05.base_index(c05.CTYPES[(index // 11) % len(c05.CTYPES)], "alone"),
+                          "asyncio")
     b["epilogue"] = ["observe", "close_pool"]
     if k == 8:
         b["net"]["fault_once"] = r.choice(["read_error", "write_error", "eof", "connect_error",
@@ -71,7 +72,7 @@ def corpus_scenario(seed, index, tier):
                                            "connect_timeout", "tls_timeout"])
         return "c05", b
     fam = c16.ArgsFamily("x", "asyncio", 0, 0)
-    s = fam.generate(seed, (index // 11) % len(c05.CTYPES), tier)
+    s = fam.generate(seed, c05.base_index(c05.CTYPES[(index // 11) % len(c05.CTYPES)], "alone"), tier)
     s["epilogue"] = ["observe", "close_pool"]
     return "c16", s
 
